@@ -40,6 +40,7 @@ ASSUMPTIONS = [
 ]
 
 PROTO = re.compile(r"^[a-zA-Z]{0,64}:?//")
+_DECODABLE = {G.puny(l): l for l in G.IDN_LABELS}   # ACE labels that Python's IDNA codec decodes (curated, checked at import)
 CTRL = re.compile(r"[\x00-\x1f\x7f-\x9f]")
 MISTAKES = re.compile(r"&amp(?:%3B|;)", re.I)
 
@@ -216,6 +217,10 @@ def eval_norm(case):
     ok, why = host_ok(a["host"], b["host"], o)
     if not ok:
         res.append(("C05/host", desc + ": host %r -> %r: %s" % (a["host"], b["host"], why)))
+    for lab in (b["raw_host"] or "").split("."):
+        if lab.lower() in _DECODABLE:
+            res.append(("C05/host-idna", desc + ": label %r of the result is still punycode although it decodes to %r" % (lab, _DECODABLE[lab.lower()])))
+            break
     if b["raw_host"] is not None and b["raw_host"] != b["raw_host"].lower():
         res.append(("C05/host-case", desc + ": host %r not lower-cased" % (b["raw_host"],)))
     # port
